@@ -15,7 +15,9 @@ What is read (ast only, nothing is imported or executed):
     the single `self._sendIq(...)` call and which callbacks it passes.
   * YowProtocolLayer.processIqRegistry / YowInterfaceLayer.processIqRegistry: whether the
     registry test also requires type in (result, error), and whether the entry is removed
-    before or after the first callback call (statement order, try/finally flattened).
+    before or after the first callback call (statement order, try/finally flattened); the removal
+    must be guarded by nothing but tag / id-in-registry / reply-type tests (seeded C08-8 kept the entry
+    for error replies with a backoff: not the recognised shape -> measured, with replies of several contents).
     When the method is not written in the recognised shape (guard clauses, dict.pop, a helper
     method ...) these two booleans are MEASURED instead: a subprocess runs the real method on a
     bare layer object (_probe_registry).  Either way the whole table is validated by the
@@ -288,7 +290,52 @@ def _strict(repo, rel, clsname):
                 raise TranslateError("%s: unrecognised registry test %s" % (rel, ast.unparse(t)))
     if len(found) != 1:
         raise TranslateError("%s: %d registry tests in processIqRegistry" % (rel, len(found)))
+
+    # the removal of the entry must not depend on anything but tag / id-in-registry / reply type (a removal that
+    # also depends on the reply's CONTENT -- seeded C08-8: "keep the entry for errors with a backoff" -- is not
+    # in the recognised shape: the caller then measures, with replies of several contents)
+    def is_tag_test(t):
+        return isinstance(t, ast.Compare) and len(t.ops) == 1 and isinstance(t.ops[0], ast.Eq) and \
+            any(isinstance(x, ast.Constant) and x.value == "iq" for x in [t.left] + t.comparators)
+
+    def plain_guard(t):
+        if in_registry(t) or reply_types(t) or is_tag_test(t):
+            return True
+        return isinstance(t, ast.BoolOp) and isinstance(t.op, ast.And) and all(plain_guard(v) for v in t.values)
+
+    def guards_of_removal(stmts, guards):
+        for st in stmts:
+            if isinstance(st, ast.If):
+                for branch in (st.body, st.orelse):
+                    r = guards_of_removal(branch, guards + [st.test])
+                    if r is not None:
+                        return r
+            elif isinstance(st, (ast.Try, ast.With)):
+                for branch in [st.body] + ([h.body for h in st.handlers] + [st.orelse, st.finalbody]
+                                           if isinstance(st, ast.Try) else []):
+                    r = guards_of_removal(branch, guards)
+                    if r is not None:
+                        return r
+            elif _removes_entry(st):
+                return guards
+        return None
+    gs = guards_of_removal(m.body, [])
+    for g in gs or []:
+        if not plain_guard(g):
+            raise TranslateError("%s: the registry entry is removed only under the further condition `%s`"
+                                 % (rel, ast.unparse(g)[:100]))
     return found[0], _late_delete(m, rel)
+
+
+def _removes_entry(st):
+    for n in ast.walk(st):
+        if isinstance(n, ast.Delete) and any(isinstance(t, ast.Subscript) and _is_self_attr(t.value, "iqRegistry")
+                                             for t in n.targets):
+            return True
+        if isinstance(n, ast.Call) and isinstance(n.func, ast.Attribute) and n.func.attr in ("pop", "popitem") \
+                and _is_self_attr(n.func.value, "iqRegistry"):
+            return True
+    return False
 
 
 def _leaves(stmts):
@@ -374,10 +421,39 @@ def probe(make_layer, make_reply, name):
     layer.iqRegistry["x2"] = (IqProtocolEntity("w", _id="x2", _type="get", to="s.whatsapp.net"), ok2, None)
     if not layer.processIqRegistry(make_reply("x2", "result")) or len(seen) != 1 or "x2" in layer.iqRegistry:
         raise SystemExit("result reply not consumed")
-    out[name] = [bool(res[0]), bool(seen[0])]
+    flags = [bool(res[0]), bool(seen[0])]
+    # the CONTENT of a reply must not matter: error replies with / without an <error> child carrying a backoff,
+    # a result with such a child -- consumed, dispatched once, entry removed
+    for j, reply in enumerate(contents("x3")):
+        layer = make_layer(); seen3 = []
+        def cb(tag, layer=layer, seen3=seen3):
+            return lambda reply, orig: seen3.append((tag, "x3" in layer.iqRegistry))
+        layer.iqRegistry["x3"] = (IqProtocolEntity("w", _id="x3", _type="get", to="s.whatsapp.net"), cb("ok"), cb("err"))
+        want = "ok" if reply_type(reply) == "result" else "err"
+        consumed = layer.processIqRegistry(reply)
+        if not consumed or seen3 != [(want, flags[1])] or "x3" in layer.iqRegistry:
+            raise SystemExit("%s: reply content #%d: consumed=%r callbacks=%r entry kept=%r -- the registry looks at the "
+                             "content of the reply" % (name, j, consumed, seen3, "x3" in layer.iqRegistry))
+    out[name] = flags
+ERR = {"code": "406", "text": "not-acceptable"}
+def node_contents(i):
+    mk = lambda t, ch: ProtocolTreeNode("iq", {"id": i, "type": t, "from": "s.whatsapp.net"}, ch)
+    e = lambda **a: ProtocolTreeNode("error", dict(ERR, **a))
+    return [mk("error", [e()]), mk("error", [e(backoff="3600")]), mk("error", [e(backoff="0")]),
+            mk("error", [ProtocolTreeNode("error", {"backoff": "1"})]), mk("error", [e(), e(backoff="60")]),
+            mk("error", []), mk("result", [e(backoff="3600")])]
 from yowsup.layers import YowProtocolLayer
+contents = node_contents; reply_type = lambda n: n["type"]
 probe(lambda: YowProtocolLayer({}), lambda i, t: ProtocolTreeNode("iq", {"id": i, "type": t, "from": "s.whatsapp.net"}), "protocol")
 from yowsup.layers.interface import YowInterfaceLayer
+from yowsup.layers.protocol_iq.protocolentities import ErrorIqProtocolEntity
+def entity_contents(i):
+    res = IqProtocolEntity("w", _id=i, _type="result", _from="s.whatsapp.net"); res.backoff = 3600
+    return [ErrorIqProtocolEntity(i, "s.whatsapp.net", "406", "not-acceptable"),
+            ErrorIqProtocolEntity(i, "s.whatsapp.net", "406", "not-acceptable", 3600),
+            ErrorIqProtocolEntity(i, "s.whatsapp.net", "406", "not-acceptable", "1"),
+            ErrorIqProtocolEntity(i, "s.whatsapp.net", None, None, 0), res]
+contents = entity_contents; reply_type = lambda e: e.getType()
 probe(lambda: YowInterfaceLayer(), lambda i, t: IqProtocolEntity("w", _id=i, _type=t, _from="s.whatsapp.net"), "interface")
 print("PROBE " + json.dumps(out))
 """
